@@ -335,13 +335,13 @@ def tie_in(values, rel=1e-9):
 
 class Trace(Family):
     name = "trace"
-    theorems = ("C09_shape_rank", "C09_iprod", "C09_residual", "C09_residual_sum", "C09_normal_equations",
-                "C09_mode_update_optimal", "C09_fit_monotone_partial", "C09_iters_le", "C09_stop_rule",
-                "C09_normal_form", "C09_init_returned")
+    theorems = ("C09_shape_rank", "C09_normal_form", "C09_knorm", "C09_iprod", "C09_residual", "C09_residual_sum",
+                "C09_residual_returned", "C09_normal_equations", "C09_gram_khatrirao", "C09_mode_update_optimal",
+                "C09_fit_monotone_partial", "C09_iters_le", "C09_stop_rule", "C09_init_returned")
 
     # -- generation ---------------------------------------------------------
     def gen(self, rng, tier):
-        n = 36 if tier == "quick" else 260
+        n = 60 if tier == "quick" else 400
         out = []
         kinds = ["dense", "sparse", "tucker", "sum"]
         for i in range(n):
@@ -927,7 +927,7 @@ class Options(Family):
                  "stoptol": 1e-4, "maxiters": 2, "fixsigns": True, "printitn": 0}
             m = rng.choice(["ok", "dimorder-short", "dimorder-repeat", "dimorder-big", "optdims-disjoint", "optdims-extra",
                             "rank0", "init-rank", "init-ndims", "init-rows", "init-string", "maxiters0", "sum-nvecs",
-                            "optdims-empty", "init-upper"])
+                            "optdims-empty", "init-upper", "optdims-repeat"])
             c["mut"] = m
             if m == "dimorder-short":
                 c["dimorder"] = list(range(N - 1))
@@ -941,6 +941,8 @@ class Options(Family):
                 c["optdims"] = [0, N + 2]
             elif m == "optdims-empty":
                 c["optdims"] = []
+            elif m == "optdims-repeat":
+                c["optdims"] = [0, 0] + ([1] if rng.random() < 0.5 else [])
             elif m == "rank0":
                 c["rank"] = 0
             elif m == "init-rank":
@@ -1013,6 +1015,7 @@ class Options(Family):
 class Formulas(Family):
     """Cross-check of the translator: generated Lean definitions at Float vs eval of the Python text."""
     name = "formulas"
+    theorems = ("C09_residual", "C09_residual_sum", "C09_stop_rule")
 
     def gen(self, rng, tier):
         n = 60 if tier == "quick" else 400
